@@ -50,6 +50,33 @@ type S3 struct {
 	D       []S2
 }
 
+// Rec is a container type that contains itself (F20-2: reported as unsupported since 1654b33)
+type Rec []Rec
+
+// RecvChan is a chan destination supplied by the caller with a receiver draining it (MakeDest)
+type RecvChan chan int
+
+var recvChanType = reflect.TypeOf(RecvChan(nil))
+
+// MakeDest returns a fresh destination pointer for t and a function to call once Decode returned.
+func MakeDest(t reflect.Type) (dst interface{}, done func()) {
+	if t == recvChanType {
+		ch := make(RecvChan, 4)
+		stop := make(chan struct{})
+		go func() {
+			for {
+				select {
+				case <-ch:
+				case <-stop:
+					return
+				}
+			}
+		}()
+		return &ch, func() { close(stop) }
+	}
+	return reflect.New(t).Interface(), func() {}
+}
+
 type Dest struct {
 	Name string
 	T    reflect.Type
@@ -94,6 +121,11 @@ var Dests = []Dest{
 	dt("int8", new(int8)),
 	dt("uint64", new(uint64)),
 	dt("float32", new(float32)),
+	dt("float64", new(float64)),
+	dt("chan int", new(chan int)),
+	dt("chan int/recv", new(RecvChan)),
+	dt("chan []byte", new(chan []byte)),
+	dt("rec []rec", new(Rec)),
 	dt("string", new(string)),
 	dt("bool", new(bool)),
 	dt("time", new(time.Time)),
@@ -152,10 +184,18 @@ func StatsOf(t reflect.Type) TypeStats {
 		case reflect.Ptr:
 			st.Flat = false
 			walk(t.Elem(), d)
-		case reflect.Slice, reflect.Array:
-			if t.Elem().Kind() == reflect.Uint8 {
+		case reflect.Slice, reflect.Array, reflect.Chan:
+			if t.Elem().Kind() == reflect.Uint8 && t.Kind() != reflect.Chan {
 				st.HasBytes = true
 				return // a byte string: a scalar as far as allocation goes
+			}
+			if t.Name() != "" {
+				if seen[t] {
+					st.Recursive = true
+					return
+				}
+				seen[t] = true
+				defer delete(seen, t)
 			}
 			if s := int(t.Elem().Size()); s > st.MaxUnit {
 				st.MaxUnit = s
@@ -363,8 +403,8 @@ func GenFor(r rng, f Fmt, t reflect.Type, depth int) *Node {
 			return Nil()
 		}
 		return GenFor(r, f, t.Elem(), depth)
-	case reflect.Slice, reflect.Array:
-		if t.Elem().Kind() == reflect.Uint8 && r.Intn(4) > 0 {
+	case reflect.Slice, reflect.Array, reflect.Chan:
+		if t.Elem().Kind() == reflect.Uint8 && t.Kind() != reflect.Chan && r.Intn(4) > 0 {
 			return &Node{K: NBin, S: randStr(r), W: randWidth(r), Indef: r.Intn(6) == 0}
 		}
 		k := r.Intn(5)
